@@ -142,6 +142,7 @@ type SItem struct {
 	Block int     `json:"block,omitempty"`
 	Ctls  []CtlAt `json:"ctls,omitempty"`
 	Open  bool    `json:"open,omitempty"` // leave the message unfinished (no FIN frame)
+	StallAtFrag int `json:"stall_at_frag,omitempty"` // k>0: send only the header of fragment k-1, then stall forever
 	// ctl
 	Op     int    `json:"op,omitempty"`
 	Data   []byte `json:"data,omitempty"`
